@@ -66,7 +66,7 @@ def run(ctx):
     po = C.proof_obligations(ctx.prop)
     fok, fout, _ = C.coq_make(["Findings/F4_kpcovr_score_blocks.vo"], timeout=600)
     ncases = 500 if ctx.quick else 4000
-    nhist = 160 if ctx.quick else 900
+    nhist = 130 if ctx.quick else 900
     # items: independent cases, then the stages of the histories (one estimator object refitted)
     cases, recs, infos, premsgs, origin = [], [], [], [], []
     st = dict(kernel=collections.Counter(), regressor=collections.Counter(), center=collections.Counter(),
@@ -90,7 +90,11 @@ def run(ctx):
             else:
                 st["dead_columns"] += info["n_dead"] > 0
                 for k in ("res_orth", "res_eig", "res_pen", "res_gpen", "res_yhat"):
-                    kk = "res_yhat_lstsq_W" if (k == "res_yhat" and c["regressor"] == "pre_noW") else k
+                    kk = k
+                    if k == "res_yhat" and c["regressor"] == "pre_noW":
+                        kk = "res_yhat_lstsq_W"
+                    elif k == "res_yhat" and c["regressor"] in H.RAW_KINDS:
+                        kk = "yhat_minus_KW_raw_kinds(not a hypothesis)"
                     resmax[kk] = max(resmax.get(kk, 0.0), info[k])
 
     for _ in range(ncases):
@@ -105,7 +109,7 @@ def run(ctx):
         origin.append(None)
         account(c, r, info)
     # presentations: the same values as int64 / int32 / float32 / lists / Fortran / strided arrays
-    npres = 140 if ctx.quick else 900
+    npres = 110 if ctx.quick else 900
     st["presentations"] = collections.Counter()
     for _ in range(npres):
         c = H.gen_present_case(ctx.rng, ctx.quick)
@@ -171,14 +175,25 @@ def run(ctx):
     nguard = 250 if ctx.quick else 1500
     gcases = [H.gen_guard_case(ctx.rng) for _ in range(nguard)]
     gobs = [H.run_guard(g) for g in gcases]
+    # ---- svd_solver resolution at the boundary sizes (same shard)
+    scases = H.gen_solver_cases(ctx.rng, ctx.quick)
+    sobs = [H.run_solver_case(g) for g in scases]
     shards.append(C.SHARD_HEAD + "From Coq Require Import ZArith List. Import ListNotations.\n"
                   "From Verif Require Import ListX KPCovRGuard.\nOpen Scope Z_scope.\n"
                   "Definition verdicts : list bool := [\n %s].\nEval vm_compute in (failing verdicts).\n"
-                  % ";\n ".join(H.guard_coq(g, o) for g, o in zip(gcases, gobs)))
+                  "Definition sverdicts : list bool := [\n %s].\nEval vm_compute in (failing sverdicts).\n"
+                  % (";\n ".join(H.guard_coq(g, o) for g, o in zip(gcases, gobs)),
+                     ";\n ".join(H.solver_coq(g, o) for g, o in zip(scases, sobs))))
     outs = C.run_shards(ctx.prop, shards)
     grc, gout = outs.pop()
     glists = C.parse_nat_lists(gout) if grc == 0 else []
     guard_failed = glists[0] if glists else None
+    solver_failed = glists[1] if len(glists) > 1 else None
+    st["solver_cases"] = dict(collections.Counter(
+        "%s max(n,d)=%s -> %s" % (g["solver"], max(g["n"], g["d"]) if max(g["n"], g["d"]) > 400 else "small",
+                                  {1: "full", 2: "arpack", 3: "randomized"}.get(o["code"], "error"))
+        for g, o in zip(scases, sobs)))
+    st["solver_kpca_compared_at_boundary"] = sum(bool(o.get("kpca_compared")) for o in sobs)
     st["guard_outcomes"] = dict(collections.Counter(
         ["accept", "regressor type", "kernel mismatch", "features", "dual ndim", "dual shape", "n_components"][o["code"]]
         if o["code"] < 7 else "other exception" for o in gobs))
@@ -242,6 +257,27 @@ def run(ctx):
                                    "model %s, implementation outcome code %d (%s), n_components_=%s, pkt_ columns=%s"
                                    % (o["reg_term"], o["code"], o["msg"][:120], o["ncomp"], o["cols"]),
                                    rep, found_input=False)
+    solver_with_input = set()
+    for si, (g, o) in enumerate(zip(scases, sobs)):
+        for key, msg in o["msgs"]:
+            solver_with_input.add(si)
+            C.report_violation(ctx, "C05 fails on the implementation: " + msg,
+                               dict(case=dict(solver=g), observed={k: v for k, v in o.items() if k != "msgs"}),
+                               found_input=True)
+    if solver_failed is None:
+        if guard_failed is not None:
+            corr_broken.append(gout[-1500:])
+    else:
+        for si in [i for i in solver_failed if i not in solver_with_input][:3]:
+            g, o = scases[si], sobs[si]
+            C.report_violation(ctx, "correspondence svd_solver resolution model vs implementation broken: svd_solver=%r, "
+                               "n_samples=%d, n_features=%d, n_components=%d: implementation ran %s (_decompose_full x%d, "
+                               "_decompose_truncated x%d) %s" % (
+                                   g["solver"], g["n"], g["d"], g["k"],
+                                   {1: "full", 2: "arpack", 3: "randomized"}.get(o["code"], "code %d" % o["code"]),
+                                   o["full"], o["trunc"], o["err"]),
+                               dict(case=dict(solver=g), observed={k: v for k, v in o.items() if k != "msgs"}),
+                               found_input=False)
     for txt in corr_broken:
         C.report_violation(ctx, "correspondence shard did not evaluate", dict(coq_output=txt), found_input=False)
     if not po["ok"]:
@@ -285,7 +321,7 @@ def run(ctx):
                         ",".join(H.KERNELS), ",".join(H.REGRESSORS)),
                traces_validated_against_impl=validated, samples=samples, distribution=dist,
                anchor_drift=changed, oracle_runs=len(cases), coq_cases=n_checks,
-               guard_cases=len(gcases), guard_cases_agreeing=(len(gcases) - len(guard_failed)) if guard_failed is not None else 0)
+               solver_cases=len(scases), guard_cases=len(gcases), guard_cases_agreeing=(len(gcases) - len(guard_failed)) if guard_failed is not None else 0)
     return C.finish(ctx, "proof", cov, [
         "kernel evaluation, the eigen-decomposition of K~ and the two pseudo-inverses are oracles constrained by hypotheses",
         "theorems are over an arbitrary real closed field; rounding is covered only by the per-run comparison (rtol 1e-7)",
@@ -295,6 +331,16 @@ def run(ctx):
 
 def replay(ctx, obj):
     c = obj["case"]
+    if "solver" in c:
+        o = H.run_solver_case(c["solver"])
+        print("replay: svd_solver=%r n=%d d=%d k=%d -> code %s, _decompose_full x%d, _decompose_truncated x%d %s" % (
+            c["solver"]["solver"], c["solver"]["n"], c["solver"]["d"], c["solver"]["k"], o["code"], o["full"],
+            o["trunc"], o["err"]))
+        for key, msg in o["msgs"]:
+            print("replay: [%s] %s" % (key, msg))
+        if not o["msgs"]:
+            print("replay: no property failure on this call")
+        return 1 if o["msgs"] else 0
     if "guard" in c:
         o = H.run_guard(c["guard"])
         print("replay: fit outcome code %d %s; n_components_=%s pkt_ columns=%s; recorded outcome was code %s" % (
